@@ -190,6 +190,67 @@ def drv_satisfaction(tier, rng):
     return groups
 
 
+# ---------------------------------------------------------------- electre end to end
+DIST_FUNS = [
+    # (request a, request b, rational a, rational b); None = default function of the method
+    (None, None, [-3, 20], [3, 10]),
+    (0, UNIT // 8, [0, 1], [1, 8]),
+    (-(UNIT // 8), UNIT // 4, [-1, 8], [1, 4]),
+    (0, 0, [0, 1], [0, 1]),
+]
+
+
+def electre_req(rng, n, m, vals, extra=0):
+    req = heur_req(rng, 'electreIII', n, m, vals, extra)
+    ec = {}
+    ks = rng.choice([[1] * m, [rng.choice([1, 2, 4]) for _ in range(m)], [rng.choice([1, 3, 5]) for _ in range(m)]])
+    for j in range(m):
+        e = {'k': UNIT * ks[j]}
+        cfg = rng.choice(['none', 'q', 'qp', 'p', 'qpv', 'pv'])
+        q = rng.choice([1, 2])
+        p = q + rng.choice([1, 2, 4])
+        v = p + rng.choice([2, 4])
+        if 'q' in cfg:
+            e['q'] = {'b': UNIT * q}
+        if 'p' in cfg:
+            e['p'] = {'b': UNIT * p}
+        if 'v' in cfg:
+            e['v'] = {'b': UNIT * v}
+        ec[CRIT[j]] = e
+    mp = {'electreCriteria': ec}
+    f = rng.choice(DIST_FUNS)
+    if f[0] is not None:
+        mp['electreDistillation'] = {'a': f[0], 'b': f[1]}
+    req['methodParameters'] = mp
+    return req, f
+
+
+def scaled(req, num, den):
+    r = copy.deepcopy(req)
+    for c, e in r['methodParameters']['electreCriteria'].items():
+        e['k'] = e['k'] * num // den
+    return r
+
+
+def drv_electre(tier, rng):
+    groups = []
+    N = 250 if tier == 'quick' else 5000
+    for t in range(N):
+        n = rng.randint(1, 5)
+        m = rng.randint(1, 3)
+        tiey = rng.random() < 0.5
+        req, f = electre_req(rng, n, m, [0, 1, 2, 3] if tiey else [0, 1, 2, 3, 4, 6, 9], rng.choice([0, 0, 1]))
+        if tiey and n >= 2 and rng.random() < 0.5:   # identical / dominated rows
+            ka = req['knownAlternatives']
+            ka[1]['criteria'] = dict(ka[0]['criteria'])
+        g = []
+        variants = perm_twins(rng, req, 'C06', 1) + [scaled(req, 2, 1), scaled(req, 1, 4)]
+        for r in variants:
+            g.append(base_case(r, sa=f[2], sb=f[3], failprop='C05', group={'id': 'x', 'rel': 'perm', 'p': 'C06'}))
+        groups.append(g)
+    return groups
+
+
 def nt_ties(o):
     """non-trivial for ranking shape: at least two entries and at least one tie or two levels"""
     r = o.get('resp', {}).get('result', [])
@@ -234,6 +295,9 @@ FAMILIES = {
         'mc_workers': 14,
         'mode': 'distil', 'trace': 'Trace_Electre2', 'drivers': [],
     },
+    'electre': {
+        'mode': 'decide', 'trace': 'Trace_Decide', 'drivers': [drv_electre], 'chunk_lines': 80, 'trace_chunks': 12,
+    },
     'majority': {
         'mc': 'MC_Majority',
         'mc_cfg': {'quick': 'MC_Majority_quick.cfg', 'thorough': 'MC_Majority_thorough.cfg'},
@@ -260,12 +324,14 @@ def nt_heur(o):
 
 
 def nt_electre2(o):
-    r = o.get('result', [])
+    r = o.get('result') or o.get('resp', {}).get('result', [])
     return len({e['evaluation']['ascendingIndex'] for e in r}) >= 2 or len({e['evaluation']['descendingIndex'] for e in r}) >= 2
 
 
 PROPS = {
-    'C05': {'families': ['electre_s2'], 'nontrivial': nt_electre2,
+    'C06': {'families': ['electre'], 'nontrivial': nt_electre2,
+            'rule': 'non-trivial = accepted ELECTRE III request whose two preorders are not both a single class; distinct by request'},
+    'C05': {'families': ['electre_s2', 'electre'], 'nontrivial': nt_electre2,
             'rule': 'non-trivial = instance whose two preorders are not both a single class; distinct by instance'},
     'C12': {'families': ['aspect'], 'nontrivial': nt_heur,
             'rule': 'non-trivial = accepted aspect-elimination request ranking >= 3 alternatives on >= 2 different level indices; distinct by request'},
@@ -275,7 +341,7 @@ PROPS = {
             'rule': 'non-trivial = valid parameter set whose real iterator yields >= 2 levels; distinct by parameter set + data set'},
     'C11': {'families': ['majority'], 'nontrivial': nt_majority,
             'rule': 'non-trivial = accepted majority request with >= 3 ranked alternatives and at least one drawn comparison; distinct by request'},
-    'C01': {'families': ['utility', 'majority', 'aspect', 'satisfaction'], 'nontrivial': nt_ties,
+    'C01': {'families': ['utility', 'majority', 'aspect', 'satisfaction', 'electre'], 'nontrivial': nt_ties,
             'rule': 'cases = TLC-enumerated instances + seeded random instances; non-trivial = accepted request whose result has >= 2 entries; distinct by request'},
     'C03': {'families': ['utility'], 'nontrivial': nt_formula,
             'rule': 'non-trivial = accepted utility request with >= 2 criteria (weights/capacities matter); distinct by request'},
